@@ -84,7 +84,7 @@ PROPS["C09"] = {"units": [
 
 PROPS["C08"] = {"units": [
     plain_unit("regress", "pktsched", "^TestRegressC08", overlay="full"),
-    rapid_unit("schedules", "pktsched", "^TestC08Schedules$", 1500, 16 * 15000, overlay="full"),
+    rapid_unit("schedules", "pktsched", "^TestC08Schedules$", 2500, 16 * 15000, overlay="full", shrinktime="5s"),
 ]}
 
 PROPS["C18"] = {"units": [
